@@ -21,7 +21,7 @@ import oracle as O
 import ex
 
 LEVEL = "other"
-TECHNIQUE = ("EXPCHAIN monomial abstract domain over the addition chains + literal limb-vector arithmetic against p + ABSINT interval post-conditions of "
+TECHNIQUE = ("FORMULA domain for batch_invert (all zero / non-zero patterns); EXPCHAIN monomial abstract domain over the addition chains + literal limb-vector arithmetic against p + ABSINT interval post-conditions of "
              "the byte codecs, over resolved MIR of the serial u64 / u32 (and, for the shared chains, fiat) backends")
 
 P = O.P if hasattr(O, "P") else 2**255 - 19
@@ -52,9 +52,49 @@ def run(tier, R):
         I = lambda s, c=cfg: "%s:%s" % (c, s)
         chain(F, R, I)
         if not cfg.startswith("fiat"):
+            batch_invert(F, R, I)
             pmult(F, R, I)
             ranges(F, R, I, backend)
             trunc(F, R, I, backend)
+
+
+# ------------------------------------------------------------------------------------------------------------ BATCH
+def batch_invert(F, R, I):
+    """FORMULA domain (lib/eng_formula.py): FieldElement::batch_invert on slices of 0..4 elements, each either the constant zero or a
+    generic (non-zero) symbol: every non-zero entry becomes its inverse, every zero stays zero, and the `acc != 0` assertion is unreachable."""
+    import itertools
+    import eng_formula as FM
+    fs = [f for f in F.fns.values() if "mir" in f and re.search(r"field::<impl .*FieldElement\w+>::batch_invert$", f["path"])]
+    if len(fs) != 1:
+        R.anchor_missing("C01.batch_invert", I("FieldElement::batch_invert"), "expected one function, found %d" % len(fs))
+        return
+    f = fs[0]
+    m = re.search(r"impl (.*FieldElement\w+)>::batch_invert$", f["path"])
+    radix = FM.radix_for(F, m.group(1))
+    n_s, bad = 0, []
+    for n in range(5):
+        for zeros in itertools.product((0, 1), repeat=n):
+            vals = ("arr", tuple(FM.fconst(0) if z else FM.fvar("a%d" % i) for i, z in enumerate(zeros)))
+            try:
+                ret, ip, root = FM.run(F, f, [vals], radix)
+            except Exception as e:
+                bad.append("zeros at %s: analysis failed: %r" % ([i for i, z in enumerate(zeros) if z], e))
+                continue
+            n_s += 1
+            out = root.get(0)
+            unproved = [o for o in ip.obl.values() if not o.ok]
+            if unproved:
+                bad.append("n=%d zeros at %s: %s is reachable (%s)" % (n, [i for i, z in enumerate(zeros) if z], unproved[0].kind, unproved[0].why[:80]))
+            for i, z in enumerate(zeros):
+                want = FM.fconst(0) if z else FM.finv(FM.fvar("a%d" % i))
+                got = out[1][i] if out and out[0] == "arr" and len(out[1]) == n else None
+                if got is None or got[0] != "fe" or not FM.is_zero(FM.fadd(got, want, -1)):
+                    bad.append("n=%d, zeros at %s: element %d becomes %s, expected %s" % (n, [j for j, zz in enumerate(zeros) if zz], i, FM.show(got) if got is not None and got[0] == "fe" else "a value outside the domain", FM.show(want)))
+    if bad:
+        R.viol("C01.batch_invert", I("FieldElement::batch_invert"), "%d of the zero / non-zero patterns fail; first: %s" % (len(bad), bad[0]), F.loc(f))
+    else:
+        R.ok("C01.batch_invert", I("FieldElement::batch_invert"), "for every pattern of zero / non-zero entries in slices of 0..4 elements (%d scenarios): non-zero entries are inverted, zeros stay zero, the accumulator assertion cannot fire" % n_s)
+    R.floor("C01.batch_invert", I("zero / non-zero patterns analysed"), n_s, 31)
 
 
 # ------------------------------------------------------------------------------------------------------------ CHAIN
